@@ -172,6 +172,11 @@ func (c *Component) dispatchSCCRQ(pkt *dataplane.ParsedPacket, h *l2tppkt.Header
 			}
 			return nil
 		}
+		// The connection this SCCRQ opened has already been torn down:
+		// this is a copy the network delayed, not a new connection.
+		if c.recentlyClosedConn(pkt.IPv4.SrcIP, l2tppkt.DecodeUint16(assigned)) {
+			return nil
+		}
 	}
 
 	sccrpBody, t, err := c.HandleSCCRQ(pkt.IPv4.DstIP, pkt.IPv4.SrcIP, avps, cfg)
